@@ -217,7 +217,7 @@ ADDENDA = {
     "C11": (" Also: float / tuple decimals, padded and entity-like strings, tokens of other enumerations (accepted there first), fused code-table tokens, zones with single-digit offset minutes; failing library activity first. Date-times with years below 1000.", None),
     "C12": (" Also: stray non-ASCII bytes in field values; versions through OFXClient.serialize / request_profile overrides; headers edited by assignment and rendered again; the header of ONE client across per-call version overrides a, b, a for every ordered pair of supported versions.", None),
     "C13": (" Also: every probe a second time with the library loggers at DEBUG; base classes looked at first.", None),
-    "C14": (" Also: events for closing-statement, credit-card and empty statement requests and for a server that never answers or answers 307 / 308 with another host (the POST must not be sent again); profile variants (banking only, moving URL); a second client without a cookie jar; a client re-configured by assignment between requests; case-sensitive URLs.", None),
+    "C14": (" Also: events for closing-statement, credit-card and empty statement requests and for a server that never answers or answers 307 / 308 with another host (the POST must not be sent again); profile variants (banking only, moving URL, no statement service at all); a second client without a cookie jar; a client re-configured by assignment between requests; case-sensitive URLs.", None),
     "C15": (" Also: a second live client of the same institution in the history search (21 events), the search again at DEBUG; a re-pointed client and ORG-only / FID-only pairs in the two-server phase; schedules at line granularity inside Client.py; successive profile versions stamped in four time zones (incl. -3:30, -9:30).", None),
     "C16": (" Also: shapes with falsy values, the MAXS shape at DEBUG, copies of read-back instances, shortcuts re-read after the tree was edited, wrappers without a statement. An unset (None) name of a present holder must read as None.", None),
     "C17": (" As built: 52 operations (a second client sharing the ORG, write-look-write of a response with two security lists; documents, trees, converters probed wide / narrow, end-tag-less writer, a shared client with per-call overrides, header edited between parses, ofxget readers given non-OFX answers, failing parses).", "2-3 threads; line, call and first-visit granularities as listed in the evidence; C extensions are atomic to the scheduler; capped pairs are counted in the evidence."),
